@@ -161,6 +161,30 @@ def members4(w0: int, w1: int, w2: int, w3: int, cfg: int, fmask: int, ed: int, 
     return _run(n, cfg, fmask, 0, [w0, w1, w2, w3], [0, 0, 0, 0], [(ed, x, y, 0)])
 
 
+@harness
+def diamond5(w0: int, w1: int, w2: int, w3: int, w4: int, r0: int, fmask: int, rmask: int, ed: int, x: int, val: int) -> bool:
+    """Five spaces, E reachable from B both directly and through the chain B <- C <- D:  B:[A], C:[B], D:[C], E:[D, B]."""
+    fmask, rmask, ed, x = pick(fmask, 0, 7), pick(rmask, 0, 3), pick(ed, 0, 6), pick(x, 0, 2)
+    bases = {"A": [], "B": ["A"], "C": ["B"], "D": ["C"], "E": ["D", "B"]}
+    fdef = {NAMES[i]: 10 * (i + 1) for i in range(3) if (fmask >> i) & 1}
+    rdef = {NAMES[i]: r0 + i for i in range(2) if (rmask >> i) & 1}
+    label("chain+shortcut f in %s r in %s" % (sorted(fdef), sorted(rdef)))
+    h = Inh(5, bases, fdef, rdef, dict(zip(NAMES, [w0, w1, w2, w3, w4])), "L")
+    if not h.check_all("initial"):
+        return False
+    applied, r = _apply(h, ed, x, 0, val, 0)      # base edits: remove base x <- A (only B has A)
+    if not applied:
+        return True
+    label("%s %s%s" % (EDITS[ed], NAMES[x], "" if r[0] == "ok" else " (rejected)"))
+    if not h.check_all("after the edit"):
+        return False
+    scratch = Inh(5, h.bases, h.fdef, h.rdef, h.W, "S")
+    a, b = describe_inh(h), describe_inh(scratch)
+    with notrace():
+        same = a == b
+    return check(same, "incremental maintenance == derivation from scratch", lambda: (a, b))
+
+
 _N3 = dict(w0=1, w1=2, w2=3, r0=11, r1=12, r2=13, val=55, ed2=-1, x2=0, y2=0)
 
 
@@ -185,12 +209,19 @@ QUERIES = [
           outside=["more than 4 spaces", "inheritance between child spaces (nested)", "more than 2 edits"]),
     Query("members4", members4,
           pre=["0 <= cfg < %d" % 2 ** cfg_bits(4), "0 <= fmask < 16", "0 <= ed < 5", "0 <= x < 4", "0 <= y < 4"],
-          partitions=lambda tier, seed: ([dict(fmask=f, ed=1, cfg=[lo, lo + 31]) for f in (6, 9) for lo in range(0, 256, 32)] if tier == "quick" else
+          partitions=lambda tier, seed: (([dict(fmask=f, ed=1, cfg=[lo, lo + 31]) for f in (6, 9) for lo in range(0, 256, 32)] +
+                                          [dict(fmask=1, ed=4, x=1, y=0, cfg=[lo, lo + 63]) for lo in range(0, 256, 64)]) if tier == "quick" else
                                          [dict(fmask=f, ed=e, cfg=[lo, lo + 31]) for f in range(1, 16) for e in range(5) for lo in range(0, 256, 32)]),
           natives=[dict(w0=1, w1=2, w2=3, w3=4, cfg=c, fmask=f, ed=e, x=x, y=y) for (c, f, e, x, y) in
-                   ((0b00111011, 3, 1, 1, 0), (0b10111111, 6, 2, 1, 0), (0b00110111, 9, 3, 3, 0), (0b00111111, 1, 4, 3, 1))],
+                   ((0b00111011, 3, 1, 1, 0), (0b10111111, 6, 2, 1, 0), (0b00110111, 9, 3, 3, 0), (0b00111111, 1, 4, 3, 1), (0b00110101, 1, 4, 1, 0), (0b10110101, 1, 4, 1, 0))],
           bounds=lambda tier: {"spaces": 4, "base_dags": "256 encodings (6 edge bits + 2 order bits), those without a linearisation skipped",
                                "definers_of_f": "subsets per tier", "edits": EDITS[:5]},
           outside=["references in the 4-space query"]),
 ]
+QUERIES.append(
+    Query("diamond5", diamond5, pre=["0 <= fmask < 8", "0 <= rmask < 4", "0 <= ed < 7", "0 <= x < 3"],
+          partitions=lambda tier, seed: [dict(ed=e) for e in range(7)],
+          natives=[dict(w0=1, w1=2, w2=3, w3=4, w4=5, r0=7, fmask=f, rmask=r, ed=e, x=x, val=9) for (f, r, e, x) in ((1, 1, 4, 1), (3, 0, 2, 0), (1, 3, 6, 0), (5, 1, 1, 0), (2, 2, 4, 1), (1, 0, 0, 1))],
+          bounds=lambda tier: {"spaces": "A; B:[A]; C:[B]; D:[C]; E:[D, B]", "definers_of_f": "subsets of {A,B,C}", "definers_of_r": "subsets of {A,B}", "edits": EDITS, "targets": "A, B, C"},
+          outside=["other 5-space shapes"]))
 BUDGET = {"quick": 420, "thorough": 1200}
